@@ -64,7 +64,7 @@ def records(c):
         i = idx[n - 1]
         e, o = cases[i], res[i]
         sig = (why, e["k"], e["view"] if e["k"] == "rm" else e["x"], e["count"] in ("many", "huge"), e["attrs"] == "over",
-               e["nh"] == "v6" and e["fam"] == "ipv4", e["addpath"] if e["k"] == "mrt" else "")
+               e["nh"] if e["fam"] == "ipv4" else "", e["addpath"] if e["k"] == "mrt" else "")
         if sig in seen:
             continue
         seen.add(sig)
